@@ -23,7 +23,7 @@ from ..oracle import crawl
 from ..run import pydoctor_run
 
 ID = "C10"
-RULE = ("template project with 23 canary slots (incl. docstring text that markup puts into an attribute value: image alt, link targets) x subsets of slots x canaries built from the pieces "
+RULE = ("template project with 28 canary slots (incl. docstring text that markup puts into an attribute value: image alt, link targets) x subsets of slots x canaries built from the pieces "
         "< > & \" ' &lt; &#0; &zq; ]]> <!-- --> <? <script> onload= and control characters (all positions) plus ` * _ | { } :: \\ "
         "(non-docstring positions), x 5 docformats x themes; and grammar-generated trees for well-formedness. Non-trivial when "
         ">=1 canary with >=1 metacharacter reached >=1 page; distinct by hash of (slots, canaries, docformat).")
@@ -48,7 +48,7 @@ MARKUP_ATTACKS = [p for p in MARKUP_PIECES if len(p) > 6] + ['old%s%s.. raw:: ht
                   'x%s.. image:: javascript:alert(1)%sy' % (b, b) for b in LINE_BREAKERS[:3]] + ['U{javascript:alert(1)}', 'L{<b>}', 'C{x}E{lb}', ' javascript:alert(1) ', ' http://evil.example/ ', '*em* **st** `ref`_ |s| [1]_',
                                                         'x ``y', '`', '\\`` `a <b>`_ ``']
 DOC_SLOTS = ['doc_mod', 'doc_cls', 'doc_meth', 'doc_attr', 'docfield_param', 'docfield_ivar']
-CODE_SLOTS = ['const', 'const_nested', 'default', 'ann_str', 'ann_literal', 'ann_return', 'deco_arg', 'deprecated_repl', 'deprecated_ver', 'base_sub', 'alias', 'typevar']
+CODE_SLOTS = ['const', 'const_nested', 'default', 'default_lambda', 'default_ifexp', 'default_cmp', 'default_comp', 'const_lambda', 'ann_str', 'ann_literal', 'ann_return', 'deco_arg', 'deprecated_repl', 'deprecated_ver', 'base_sub', 'alias', 'typevar']
 OPT_SLOTS = ['project_name', 'project_url', 'project_version', 'viewsource_base']
 STEM_SLOT = 'stem'
 # docstring text that markup itself places in an attribute value: the alternative text of a reST image, the target of a reST or
@@ -59,6 +59,8 @@ ATTR_ATTACKS = ['x" onload="alert(1)', "x' onmouseover='alert(1)", 'x" onmouseov
                 '&quot; onload=&quot;x', 'x"onfocus=alert(1) autofocus="', '" a="1" b="2']
 ALL_SLOTS = DOC_SLOTS + CODE_SLOTS + OPT_SLOTS + [STEM_SLOT] + ATTR_SLOTS
 MARK_L, MARK_R = 'zq9', '9qz'
+# rendered through astor's pretty-printer, which lays long strings out over several lines at blanks: short payloads without blanks
+GENERIC_SLOTS = ('default_lambda', 'default_ifexp', 'default_cmp', 'default_comp', 'const_lambda')
 UNPARSABLE_SLOTS = ('ann_str', 'ann_return', 'alias', 'deprecated_repl')  # also: @deprecated(replacement=) links valid identifiers only
 
 
@@ -107,6 +109,10 @@ def build_project(values: Dict[str, str], fmt: str) -> Tuple[Dict[str, str], Lis
         '    @deprecated(Version(%s, 1, 2, 3), replacement=%s)' % (r(v['deprecated_ver']), r(v['deprecated_repl'])),
         '    def old(self):',
         '        pass',
+        # expressions that the value colouriser hands to its generic fallback (one piece of text)
+        'def generic(p=lambda: %s, q=%s if CONST else %s, r=(1 < %s), s=[x for x in %s]):' % (r(v['default_lambda']), r(v['default_ifexp']), r(v['default_ifexp']), r(v['default_cmp']), r(v['default_comp'])),
+        '    pass',
+        'CALLBACK = lambda: %s' % r(v['const_lambda']),
     ]) + '\n'
     stem = v['stem']
     uri = v['rst_link_uri'].replace('\\', '\\\\').replace(' ', '\\ ')
@@ -265,6 +271,8 @@ def st_case():
             elif s in ATTR_SLOTS:
                 bad = {'rst_image_alt': '', 'rst_link_uri': '<>', 'epy_link_uri': '<>'}[s]
                 canaries[s] = draw(payload([p for p in ATTR_PIECES if not any(ch in p for ch in bad)]))
+            elif s in GENERIC_SLOTS:
+                canaries[s] = draw(st.lists(st.sampled_from([p for p in HTML_PIECES + MARKUP_PIECES if len(p) < 12 and not any(ch.isspace() or ch in LINE_BREAKERS for ch in p)]), min_size=1, max_size=3).map(''.join))
             elif s == STEM_SLOT:
                 canaries[s] = draw(payload(['<', '>', '&', '"', "'", '&lt;', '<b>', ' ', '%', '#', '+', ';', '=', 'a']))
             elif s in OPT_SLOTS:
@@ -312,6 +320,8 @@ def work(item: Dict[str, Any]) -> Acc:
         for slot in ALL_SLOTS:
             attacks = HTML_ATTACKS if slot in DOC_SLOTS or slot == STEM_SLOT else (ATTR_ATTACKS if slot in ATTR_SLOTS else HTML_ATTACKS + MARKUP_ATTACKS)
             for ai, payload in enumerate(attacks):
+                if slot in GENERIC_SLOTS and (len(payload) > 36 or any(ch.isspace() or ch in LINE_BREAKERS for ch in payload)):
+                    continue
                 if slot in ('rst_link_uri', 'epy_link_uri') and ('<' in payload or '>' in payload):
                     continue  # angle brackets delimit the target in the markup itself
                 if slot == STEM_SLOT and ('/' in payload or '\x00' in payload):
